@@ -252,6 +252,10 @@ Definition hdr_magic (h : list Z) : Z := le_dec (slice h 0 8).
 Definition hdr_version (h : list Z) : Z := le_dec (slice h 8 4).
 Definition hdr_size (h : list Z) : Z := le_dec (slice h 12 4).
 Definition hdr_tag (h : list Z) : Z := le_dec (slice h 24 8).
+Fixpoint le_enc (n : nat) (v : Z) : list Z :=
+  match n with O => [] | S m => (v mod 256) :: le_enc m (v / 256) end.
+Definition mk_hdr (tag size : Z) : list Z :=
+  le_enc 8 MAGIC ++ le_enc 4 VERSION ++ le_enc 4 size ++ le_enc 8 0 ++ le_enc 8 tag ++ le_enc 8 0.
 Definition overwrite (h : list Z) (off : nat) (g : list Z) : list Z :=
   firstn off h ++ g ++ skipn (off + length g) h.
 
@@ -309,6 +313,19 @@ Definition ret_call (s : state) (t : tid) (r : Z) (in_wait reader : bool) : stat
 Definition ret_nocall (s : state) (t : tid) : state :=
   park (add_trace s (TvRet t (-1) (s_errno s) [] (s_now s))) t.
 
+(* StubImpl::do_send (rpc.cpp 65-92) over the scripted stream (whose writev never blocks) *)
+Definition do_send (s3 : state) (t : tid) (tag dl : Z) : state * Z :=
+  let k := nth t (s_calls s3) dummy_call in
+  let now := s_now s3 in
+  if dl <? now then (set_errno s3 ETIMEDOUT, -1)                  (* rpc.cpp 68 *)
+  else if 4294967295 <? k_req k then (set_errno s3 EINVAL, -1)    (* 72 *)
+  else
+    let wr := if s_shut s3 then -1 else k_req k + 40 in           (* mock writev *)
+    let s3a := if s_shut s3 then set_errno s3 EPIPE else s3 in
+    let s3b := add_trace s3a (TvWrite t tag (k_req k) wr now) in
+    if wr =? k_req k + 40 then (s3b, 0)
+    else (set_errno (stream_shutdown s3b t) ECONNRESET, -1).      (* 86-90 *)
+
 (* ---- PCall: do_call up to the wait loop ------------------------------------------------------ *)
 Definition step_call (s : state) (t : tid) : state :=
   let k := nth t (s_calls s) dummy_call in
@@ -326,16 +343,7 @@ Definition step_call (s : state) (t : tid) : state :=
     | Some _ => set_bad s2 true                                         (* `goto again` — never: tags are fresh *)
     | None =>
       let s3 := set_map s2 (s_map s2 ++ [(tag, t)]) in                  (* 81 *)
-      (* do_send *)
-      let '(s4, r2) :=
-        if dl <? now then (set_errno s3 ETIMEDOUT, -1)                  (* rpc.cpp 68 *)
-        else if 4294967295 <? k_req k then (set_errno s3 EINVAL, -1)    (* 72 *)
-        else
-          let wr := if s_shut s3 then -1 else k_req k + 40 in           (* mock writev *)
-          let s3a := if s_shut s3 then set_errno s3 EPIPE else s3 in
-          let s3b := add_trace s3a (TvWrite t tag (k_req k) wr now) in
-          if wr =? k_req k + 40 then (s3b, 0)
-          else (set_errno (stream_shutdown s3b t) ECONNRESET, -1) in    (* 86-90 *)
+      let '(s4, r2) := do_send s3 t tag dl in
       if r2 <? 0 then                                                   (* 95-100 *)
         ret_call (erase_tag s4 t tag None) t (-1) false false
       else
@@ -507,7 +515,9 @@ Definition micro (s : state) (t : tid) : state :=
 Inductive event : Type :=
 | EvStep (t : tid)        (* a READY thread makes a micro step *)
 | EvTimeout (t : tid)     (* resume_threads: a sleeper whose deadline has passed becomes READY (error_number untouched) *)
-| EvTick (d : Z).         (* time advances *)
+| EvTick (d : Z)          (* time advances *)
+| EvAck.                  (* scheduler bookkeeping: the list of threads woken by the running thread has been
+                             moved to the run queue (clears s_woken; touches nothing else) *)
 
 Definition nthreads (s : state) : nat := length (s_calls s).
 
@@ -528,6 +538,7 @@ Definition step (s : state) (e : event) : option state :=
         end
       else None
   | EvTick d => if 0 <=? d then Some (set_now s (s_now s + d)) else None
+  | EvAck => Some (set_woken s [])
   end.
 
 Fixpoint run_events (s : state) (es : list event) : option state :=
@@ -550,37 +561,38 @@ Definition init (fix_ : bool) (calls : list call) (script : list sev) : state :=
 Inductive rent : Type := RIdle | RT (t : tid).
 
 Record dstate : Type := mkD { d_st : state; d_ring : list rent; d_heap : heap; d_ts : nat -> Z;
-                              d_evs : list event (* reversed: the schedule actually taken *) }.
+                              d_evs : list event (* reversed: the schedule actually taken *);
+                              d_fail : bool (* fuel exhausted / an event was not enabled: never (checked by the runner) *) }.
 
 Definition d_init (s : state) : dstate :=
   let ts0 := updf (fun _ => 0) 0%nat MAX64 in
-  mkD s (RIdle :: map RT (seq 0 (nthreads s))) (push ts0 heap_empty 0%nat) ts0 [].
+  mkD s (RIdle :: map RT (seq 0 (nthreads s))) (push ts0 heap_empty 0%nat) ts0 [] false.
 
-(* apply one event of the transition system; an impossible event leaves the state (never happens: see drive_ok) *)
+(* apply one event of the transition system; an event that is not enabled only raises d_fail *)
 Definition d_apply (d : dstate) (e : event) : dstate :=
   match step (d_st d) e with
-  | Some s' => mkD s' (d_ring d) (d_heap d) (d_ts d) (e :: d_evs d)
-  | None => mkD (set_bad (d_st d) true) (d_ring d) (d_heap d) (d_ts d) (d_evs d)
+  | Some s' => mkD s' (d_ring d) (d_heap d) (d_ts d) (e :: d_evs d) (d_fail d)
+  | None => mkD (d_st d) (d_ring d) (d_heap d) (d_ts d) (d_evs d) true
   end.
 
 (* threads woken during the current thread's run: sleepq.pop(th); insert_tail(th) — in order *)
 Fixpoint d_wake_list (d : dstate) (l : list tid) : dstate :=
   match l with
   | [] => d
-  | w :: r => d_wake_list (mkD (d_st d) (d_ring d ++ [RT w]) (fst (pop (d_ts d) (d_heap d) (S w))) (d_ts d) (d_evs d)) r
+  | w :: r => d_wake_list (mkD (d_st d) (d_ring d ++ [RT w]) (fst (pop (d_ts d) (d_heap d) (S w))) (d_ts d) (d_evs d) (d_fail d)) r
   end.
 
 (* run caller t until it sleeps *)
 Fixpoint d_run_thread (fuel : nat) (d : dstate) (t : tid) : dstate :=
   match fuel with
-  | O => mkD (set_bad (d_st d) true) (d_ring d) (d_heap d) (d_ts d) (d_evs d)
+  | O => mkD (d_st d) (d_ring d) (d_heap d) (d_ts d) (d_evs d) true
   | S f =>
       match t_stat (s_thr (d_st d) t) with
       | TSleep dl =>
           (* prepare_usleep: leave the ring, ts_wakeup := dl, sleepq.push *)
-          let d1 := d_wake_list (mkD (set_woken (d_st d) []) (d_ring d) (d_heap d) (d_ts d) (d_evs d)) (s_woken (d_st d)) in
+          let d1 := d_wake_list (d_apply d EvAck) (s_woken (d_st d)) in
           let ts' := updf (d_ts d1) (S t) dl in
-          mkD (d_st d1) (tl (d_ring d1)) (push ts' (d_heap d1) (S t)) ts' (d_evs d1)
+          mkD (d_st d1) (tl (d_ring d1)) (push ts' (d_heap d1) (S t)) ts' (d_evs d1) (d_fail d1)
       | TReady => d_run_thread f (d_apply d (EvStep t)) t
       end
   end.
@@ -594,7 +606,7 @@ Fixpoint d_resume (fuel : nat) (d : dstate) : dstate :=
       | Some (S t) =>
           if d_ts d (S t) <=? s_now (d_st d) then
             let h' := fst (pop_front (d_ts d) (d_heap d)) in
-            let d1 := d_apply (mkD (d_st d) (d_ring d ++ [RT t]) h' (d_ts d) (d_evs d)) (EvTimeout t) in
+            let d1 := d_apply (mkD (d_st d) (d_ring d ++ [RT t]) h' (d_ts d) (d_evs d) (d_fail d)) (EvTimeout t) in
             d_resume f d1
           else d
       | _ => d
@@ -606,14 +618,14 @@ Definition IDLE_MAX : Z := 10485760.     (* 10 * 1024 * 1024 µs, idler 2110 *)
 (* the whole run; returns when only the idler is left and nothing can wake any more *)
 Fixpoint drive (tfuel fuel : nat) (d : dstate) : dstate :=
   match fuel with
-  | O => mkD (set_bad (d_st d) true) (d_ring d) (d_heap d) (d_ts d) (d_evs d)
+  | O => mkD (d_st d) (d_ring d) (d_heap d) (d_ts d) (d_evs d) true
   | S f =>
       match d_ring d with
       | RT t :: _ => drive tfuel f (d_run_thread tfuel d t)
       | RIdle :: rest =>
           let d1 := d_resume (S (length (hq (d_heap d)))) d in
           match d_ring d1 with
-          | RIdle :: ((_ :: _) as rest') => drive tfuel f (mkD (d_st d1) (rest' ++ [RIdle]) (d_heap d1) (d_ts d1) (d_evs d1))
+          | RIdle :: ((_ :: _) as rest') => drive tfuel f (mkD (d_st d1) (rest' ++ [RIdle]) (d_heap d1) (d_ts d1) (d_evs d1) (d_fail d1))
           | _ =>
               (* only the idler: sleep until the next deadline (H-idle advances the virtual clock) *)
               match front (d_heap d1) with
